@@ -5,10 +5,12 @@ package main
 // input  = (api cfg store traces fixed)
 //   api     0 TraverseV1 | 1 NewSelectiveWriter+WriteTo | 2 TraverseToFile
 //           3 root SelectiveCar Write / Prepare / Dump  | 4 root WriteCar
+//           5 / 6: a history in one process: SelectiveCar.Write / WriteCar into a destination that
+//                  fails at its fk-th Write call, then the fault-free api 3 / api 4 run
 //   cfg     (roots sel opts ties sels)        -- everything needed to re-run the implementation
 //     roots (cid ...)                     (api 0..2: exactly one)
 //     sel   (kind depth (path ...))       selector description (selSpec)
-//     opts  (dpad ipad codec dups budget chooser nilroots plain ncbw ncbd)
+//     opts  (dpad ipad codec dups budget chooser nilroots plain ncbw ncbd fk fshort)
 //     ties  1 when two distinct CIDs of the store share a digest (index byte order unspecified)
 //   store   ((cid data) ...)             the blocks the link system / block store holds
 //     sels  api 3: one selector description per Dag entry (roots[i], sels[i])
@@ -126,19 +128,24 @@ type travOpts struct {
 	nilRoots   bool   // api 4: pass a nil root slice when there are no roots
 	plain      bool   // api 4: WriteCar (DefaultWalkFunc) instead of WriteCarWithWalker
 	ncbW, ncbD uint64 // api 3: number of OnNewCarBlock callbacks given to Write / to Prepare (used by Dump)
+	fk         uint64 // api 5/6: the destination of the first write fails at its fk-th Write call
+	fshort     bool   // api 5/6: ... after accepting half of that call (short write) instead of nothing
 }
 
 func (o travOpts) val() Val {
-	return VL{VN(o.dpad), VN(o.ipad), VN(o.codec), vbool(o.dups), VN(o.budget), vbool(o.chooser), vbool(o.nilRoots), vbool(o.plain), VN(o.ncbW), VN(o.ncbD)}
+	return VL{VN(o.dpad), VN(o.ipad), VN(o.codec), vbool(o.dups), VN(o.budget), vbool(o.chooser), vbool(o.nilRoots), vbool(o.plain), VN(o.ncbW), VN(o.ncbD), VN(o.fk), vbool(o.fshort)}
 }
 func travOptsFromVal(v Val) travOpts {
 	l := v.(VL)
-	o := travOpts{uint64(l[0].(VN)), uint64(l[1].(VN)), uint64(l[2].(VN)), l[3].(VN) != 0, uint64(l[4].(VN)), l[5].(VN) != 0, l[6].(VN) != 0, false, 0, 0}
+	o := travOpts{uint64(l[0].(VN)), uint64(l[1].(VN)), uint64(l[2].(VN)), l[3].(VN) != 0, uint64(l[4].(VN)), l[5].(VN) != 0, l[6].(VN) != 0, false, 0, 0, 0, false}
 	if len(l) > 7 {
 		o.plain = l[7].(VN) != 0
 	}
 	if len(l) > 9 {
 		o.ncbW, o.ncbD = uint64(l[8].(VN)), uint64(l[9].(VN))
+	}
+	if len(l) > 11 {
+		o.fk, o.fshort = uint64(l[10].(VN)), l[11].(VN) != 0
 	}
 	return o
 }
@@ -575,6 +582,28 @@ func (b *cappedBuffer) Write(p []byte) (int, error) {
 	return b.Buffer.Write(p)
 }
 
+// faultWriter fails at its k-th Write call (0-based): it accepts nothing (or, short, the first half)
+// of that call and returns an error; what it accepted before is kept.
+type faultWriter struct {
+	bytes.Buffer
+	k, calls uint64
+	short    bool
+}
+
+func (f *faultWriter) Write(p []byte) (int, error) {
+	if f.calls == f.k {
+		f.calls++
+		if f.short {
+			n := len(p) / 2
+			f.Buffer.Write(p[:n])
+			return n, io.ErrShortWrite
+		}
+		return 0, errors.New("destination failed")
+	}
+	f.calls++
+	return f.Buffer.Write(p)
+}
+
 // errPanicked stands for a runtime panic recovered around a go-car call
 var errPanicked = errors.New("panicked")
 
@@ -667,6 +696,28 @@ func runTrav(c *Ctx, tc *travCase) (traces Val, obs Val) {
 	ties := tc.ties()
 	cur := &walkLog{}
 	switch tc.api {
+	case 5, 6:
+		// first a write into a failing destination, then -- same process -- the fault-free run
+		fw := &faultWriter{k: tc.opts.fk, short: tc.opts.fshort}
+		var ferr error
+		if tc.api == 5 {
+			var dags []carv1.Dag
+			for i, r := range tc.roots {
+				dags = append(dags, carv1.Dag{Root: r, Selector: tc.dagSel(i).node()})
+			}
+			ferr = carv1.NewSelectiveCar(ctx, loggingStore{store, &cur}, dags, tc.opts.root()...).Write(fw)
+		} else {
+			roots := tc.roots
+			if len(roots) == 0 && !tc.opts.nilRoots {
+				roots = []cid.Cid{}
+			}
+			ferr = carv1.WriteCar(ctx, &loggingGetter{store: store}, roots, fw)
+		}
+		ph1 := VL{VB(fw.Bytes()), travErr(ferr)}
+		second := *tc
+		second.api = tc.api - 2
+		traces, obs := runTrav(c, &second)
+		return traces, append(VL{ph1}, obs.(VL)...)
 	case 0:
 		ls := loggingLinkSystem(store, &cur)
 		var buf bytes.Buffer
